@@ -203,11 +203,41 @@ func c19NewWorld(f failer, st *verifkit.Stats, nOnKey []int, secs []int) *c19Wor
 	seq := c19Seq.Add(1)
 	w := &c19World{f: f, st: st, mr: mr, evals: c19Evals.Load()}
 	idx := 0
+	// The instances of a case are constructed at the same instant by parallel goroutines (as
+	// replicas of a service starting together do): "only the holder can release" presupposes
+	// that instances are told apart however they came into being.
+	total := 0
+	for _, n := range nOnKey {
+		total += n
+	}
+	locks := make([]*redis.RedisLock, total)
+	var ready, done sync.WaitGroup
+	start := make(chan struct{})
+	li := 0
+	for k, n := range nOnKey {
+		kn := fmt.Sprintf("c19:%d:%c", seq, 'a'+k)
+		for j := 0; j < n; j++ {
+			ready.Add(1)
+			done.Add(1)
+			go func(i int) {
+				defer done.Done()
+				ready.Done()
+				<-start
+				locks[i] = redis.NewRedisLock(store, kn)
+			}(li)
+			li++
+		}
+	}
+	ready.Wait()
+	close(start)
+	done.Wait()
+	li = 0
 	for k, n := range nOnKey {
 		kn := fmt.Sprintf("c19:%d:%c", seq, 'a'+k)
 		w.keys = append(w.keys, &c19Key{name: kn, holder: -1})
 		for j := 0; j < n; j++ {
-			in := &c19Inst{name: fmt.Sprintf("%c%d", 'a'+k, j), key: k, lock: redis.NewRedisLock(store, kn)}
+			in := &c19Inst{name: fmt.Sprintf("%c%d", 'a'+k, j), key: k, lock: locks[li]}
+			li++
 			if s := secs[idx]; s >= 0 {
 				in.lock.SetExpire(s)
 				in.sec = s
@@ -1166,4 +1196,103 @@ func TestVerifC19ScriptedInterleaved(t *testing.T) {
 			}
 		}
 	}
+}
+
+// ------------------------------------------------------------------ many instances
+
+// "for every number of lock instances on a key": thousands of instances, constructed by
+// parallel goroutines at the same instant (one lock object per request is the usual go-zero
+// pattern), then used strictly one after another on a frozen store clock.  Every verdict is
+// an Acquire/Release result; the token the store holds after an Acquire (the state named in
+// the property: "redis key -> holder id") is only used to pick which pairs to try first.
+func TestVerifC19ManyInstances(t *testing.T) {
+	logx.Disable()
+	st := verifkit.New("many-instances")
+	defer st.Flush()
+	rapid.Check(t, func(t *rapid.T) {
+		st.Eval()
+		mr, store := c19Server(t)
+		mr.FlushAll()
+		workers := rapid.SampledFrom([]int{2, 4, 8, 16, 32}).Draw(t, "workers")
+		per := rapid.IntRange(50, 400).Draw(t, "perWorker")
+		key := fmt.Sprintf("c19:many:%d", c19Seq.Add(1))
+		locks := make([]*redis.RedisLock, workers*per)
+		start := make(chan struct{})
+		var wg sync.WaitGroup
+		for w := 0; w < workers; w++ {
+			wg.Add(1)
+			go func(w int) {
+				defer wg.Done()
+				<-start
+				for i := 0; i < per; i++ {
+					l := redis.NewRedisLock(store, key)
+					l.SetExpire(60)
+					locks[w*per+i] = l
+				}
+			}(w)
+		}
+		close(start)
+		wg.Wait()
+		st.Class(fmt.Sprintf("workers:%d", workers))
+		desc := fmt.Sprintf("workers=%d perWorker=%d", workers, per)
+
+		// pass 1: each instance in turn takes and frees the (free) key
+		owner := map[string]int{} // stored token -> first instance seen with it
+		var twinA, twinB = -1, -1
+		for i, l := range locks {
+			ok, err := l.Acquire()
+			if err != nil {
+				st.Note("inconclusive (store error): %v", err)
+				return
+			}
+			if !ok {
+				t.Fatalf("C19 VIOLATED (Acquire succeeds if no other instance holds the key): instance #%d refused on a free key; %s", i, desc)
+			}
+			tok, _ := mr.Get(key)
+			if j, dup := owner[tok]; dup && twinA < 0 {
+				twinA, twinB = j, i
+			} else if !dup {
+				owner[tok] = i
+			}
+			rel, err := l.Release()
+			if err != nil {
+				st.Note("inconclusive (store error): %v", err)
+				return
+			}
+			if !rel {
+				t.Fatalf("C19 VIOLATED (Release by the current holder frees the key): instance #%d holds the key but its Release reported false; %s", i, desc)
+			}
+		}
+		// pass 2: a holder excludes others.  Candidates: the pair the store could not tell apart
+		// (if any), plus a generated sample.
+		a := rapid.IntRange(0, len(locks)-1).Draw(t, "holder")
+		cands := rapid.SliceOfN(rapid.IntRange(0, len(locks)-1), 20, 60).Draw(t, "contenders")
+		if twinA >= 0 {
+			a = twinA
+			cands = append([]int{twinB}, cands...)
+			st.Class("store-token-seen-twice")
+		}
+		if ok, err := locks[a].Acquire(); err != nil || !ok {
+			if err != nil {
+				st.Note("inconclusive (store error): %v", err)
+				return
+			}
+			t.Fatalf("C19 VIOLATED: instance #%d refused on a free key; %s", a, desc)
+		}
+		for _, j := range cands {
+			if j == a {
+				continue
+			}
+			if rel, err := locks[j].Release(); err == nil && rel {
+				t.Fatalf("C19 VIOLATED (Release frees the key only when called by the current holder): instance #%d holds the key (lease 60.5 s, store clock frozen), yet Release by instance #%d reported true; %s", a, j, desc)
+			}
+			if ok, err := locks[j].Acquire(); err == nil && ok {
+				t.Fatalf("C19 VIOLATED (at most one instance holds a key): instance #%d holds the key unexpired, yet instance #%d also acquired it; %s", a, j, desc)
+			}
+		}
+		if rel, err := locks[a].Release(); err == nil && !rel {
+			t.Fatalf("C19 VIOLATED: the holder #%d's Release reported false; %s", a, desc)
+		}
+		st.NonTrivial(desc)
+	})
 }
